@@ -601,8 +601,14 @@ func (vc *VC) execTypeAssert(x *ssa.TypeAssert, st *State) {
 	iv := vc.val(x.X)
 	if _, isIface := x.AssertedType.Underlying().(*types.Interface); isIface {
 		// interface-to-interface: succeeds iff the dynamic type implements it; model: non-nil and unknown
-		ok := vc.fresh("implements", "Bool")
-		vc.assume(fmt.Sprintf("(=> %s (> %s 0))", ok, iv))
+		var ok string
+		if types.AssignableTo(x.X.Type(), x.AssertedType) {
+			// static upcast: succeeds exactly for non-nil interface values
+			ok = vc.define("implements", "Bool", fmt.Sprintf("(> %s 0)", iv))
+		} else {
+			ok = vc.fresh("implements", "Bool")
+			vc.assume(fmt.Sprintf("(=> %s (> %s 0))", ok, iv))
+		}
 		if x.CommaOk {
 			vc.tuples[x] = []string{fmt.Sprintf("(ite %s %s 0)", ok, iv), ok}
 		} else {
